@@ -259,6 +259,22 @@ func TestC17(t *testing.T) {
 		}
 	}
 	ev.Class(id, "probe through binary (all 16 codes)")
+	if pres, _, err := engine.RunInproc(enginePkgs(pc.Pkgs, pc.Sources), engine.DefaultConfig(), engine.Options{Sequential: true}); err == nil {
+		for _, d := range pres.Diags {
+			sc := pc
+			sc.File, sc.Line, sc.Code = d.File, d.Line, d.Code
+			why := c17Suppress(sc)
+			if strings.HasPrefix(why, "SKIP") || strings.HasPrefix(why, "GENERATOR-BUG") {
+				t.Fatalf("GENERATOR-BUG probe append step: %s", why)
+			}
+			if why != "" {
+				violation(t, id, "c17", "probe-suppress", 0, sc, "probe: appending // @ignore %s to %s:%d: %s", d.Code, d.File, d.Line, why)
+			}
+			ev.Eval(id)
+			ev.Class(id, "append-and-rerun "+d.Code)
+			ev.NonTrivial(id, ev.Hash("probe", d.File, fmt.Sprint(d.Line), d.Code))
+		}
+	}
 	rapid.Check(t, func(rt *rapid.T) {
 		p := proggen.Gen(rt, proggen.GenOpts{Focus: "all", MinPkgs: 1, MaxPkgs: 3, TestFiles: true, Aliases: true, Rich: true})
 		src := stripTags(p.Sources())
@@ -295,6 +311,7 @@ func TestC17(t *testing.T) {
 				if why != "" {
 					violation(rt, id, "c17", "suppress", p.Size(), sc, "appending // @ignore %s to %s:%d: %s", d.Code, d.File, d.Line, why)
 				}
+				ev.Eval(id)
 				ev.Class(id, "append-and-rerun "+d.Code)
 				ev.NonTrivial(id, ev.Hash(fmt.Sprint(src), d.File, fmt.Sprint(d.Line), d.Code))
 			}
